@@ -38,6 +38,10 @@ NAME_CLASSES = {
     "quoted-plain": '"Alpha"',
     "keyword": "or",
     "opword": "AND",
+    "tab-inside": "tab\there",
+    "newline-inside": "line\nbreak",
+    "double-blank": "two  blanks",
+    "cr-inside": "cr\rhere",
 }
 
 
